@@ -156,6 +156,15 @@ pub enum VOp {
     Reverse,
     CmpHash,
     DropVec,
+    /// turn the vector into an iterator that stays alive across later steps (other clients
+    /// keep allocating in the arena meanwhile)
+    IterHold,
+    /// start a drain that stays alive across later steps of other clients
+    DrainHold(Rng2),
+    /// pull one element from the held iterator / drain
+    IterNext { back: bool },
+    /// drop the held iterator / drain
+    IterRelease,
 }
 
 #[derive(Clone, Copy, Debug, PartialEq, Eq, Serialize, Deserialize)]
